@@ -578,11 +578,12 @@ def roles_unit(isa):
                         g.append(z3.BoolVal(inl(so["destination"], o) == any(o is d for d in dest)))
                         g.append(z3.BoolVal(inl(so["source"], o) == (not any(o is d for d in dest))))
                     g.append(z3.BoolVal(not any(any(x is o for o in ops) for x in so["src_dst"])))
-                # AArch64 write-back: the base register of a pre/post-indexed memory operand in source/destination is read and written
+                # AArch64 write-back (statement: "pre/post-index base write-back"): the base register of a pre/post-indexed memory
+                # operand is read and written, whatever role the memory operand itself has (load, store or read-modify-write)
                 if isa == "aarch64" and mi is not None:
                     m = ops[mi]
                     base = m.fields["_base"]
-                    in_plain = inl(so["source"], m) or inl(so["destination"], m)
+                    in_plain = inl(so["source"], m) or inl(so["destination"], m) or inl(so["src_dst"], m)
                     g.append(z3.Implies(z3.And(z3.Or(pre_i, post_i), z3.BoolVal(in_plain)), z3.BoolVal(inl(so["src_dst"], base))))
                     g.append(z3.Implies(z3.Not(z3.Or(pre_i, post_i)), z3.BoolVal(not inl(so["src_dst"], base))))
                 # load/store flags
